@@ -63,6 +63,30 @@ fn ledgers() -> Vec<(String, Vec<Transaction>)> {
     l.push(alpha::sell(alpha::date(2024, 9, 1), "DIV", "5", "12", "0"));
     l.push(alpha::dividend(alpha::date(2024, 10, 1), "DIV", "9", "0"));
     out.push(("dividends in five tax years without disposals, disposals in two other years".to_string(), l));
+    // refused ledgers with several possible culprits: which security the error names must not depend on a map's order.
+    // (a) four securities whose remaining pool cannot absorb a capital return that the pre-pass lets through (sale
+    // 30-day-matched to a dearer repurchase); (b) four securities each with an uncovered sale on one date; (c) four
+    // securities each with a capital return exceeding all expenditure
+    let mut l = vec![];
+    for tk in ["DDD", "BBB", "AAA", "CCC"] {
+        l.push(alpha::buy(alpha::date(2020, 1, 6), tk, "100", "1", "0"));
+        l.push(alpha::sell(alpha::date(2020, 2, 3), tk, "50", "2", "0"));
+        l.push(alpha::buy(alpha::date(2020, 2, 10), tk, "50", "10", "0"));
+        l.push(alpha::capret(alpha::date(2020, 6, 1), tk, "100", "300", "0"));
+    }
+    out.push(("refused: four remaining pools cannot absorb their capital return".to_string(), l));
+    let mut l = vec![];
+    for tk in ["DDD", "BBB", "AAA", "CCC"] {
+        l.push(alpha::buy(alpha::date(2020, 1, 6), tk, "10", "1", "0"));
+        l.push(alpha::sell(alpha::date(2020, 2, 3), tk, "50", "2", "0"));
+    }
+    out.push(("refused: four uncovered sales on one date".to_string(), l));
+    let mut l = vec![];
+    for tk in ["DDD", "BBB", "AAA", "CCC"] {
+        l.push(alpha::buy(alpha::date(2020, 1, 6), tk, "10", "1", "0"));
+        l.push(alpha::capret(alpha::date(2020, 6, 1), tk, "10", "500", "0"));
+    }
+    out.push(("refused: four capital returns exceeding all expenditure".to_string(), l));
     out
 }
 
@@ -205,12 +229,17 @@ pub fn c16(tier: Tier) -> i32 {
             if base.out != base2.out || base.log != base2.log {
                 machinery_failure("replaying the identity schedule twice gives different observations: nondeterminism is not owned");
             }
-            let Some(brep) = &base.report else { machinery_failure(&format!("ledger '{name}' is not accepted: {}", base.out)) };
+            let refused = name.starts_with("refused:");
+            if base.report.is_none() != refused {
+                machinery_failure(&format!("ledger '{name}' is {}: {}", if refused { "accepted although it is meant to be refused" } else { "not accepted" }, base.out.chars().take(300).collect::<String>()));
+            }
+            let brep_opt = base.report.as_ref();
             acc.states += 1;
             acc.validated += 1;
             acc.add("choice-points-in-identity-execution", base.log.len() as u64);
             acc.add("max-arity", base.log.iter().map(|c| c.1).max().unwrap_or(0) as u64);
-            let base_pdf = pdf_text(brep);
+            let base_pdf = brep_opt.map(pdf_text).unwrap_or_default();
+            if let Some(brep) = brep_opt {
             // stated orders on the base report
             for d in order_invariants(brep) {
                 acc.violation(&ctxr.findings, "C16", Violation { clause: d.clause.into(), input: Input::Ledger(txs.clone()), detail: d.detail, context: json!({"profile": name}) });
@@ -247,6 +276,11 @@ pub fn c16(tier: Tier) -> i32 {
                     let first_diff = plain.lines().zip(base_plain.lines()).find(|(a, b)| a != b).map(|(a, b)| format!("{a:?} vs {b:?}")).unwrap_or_default();
                     acc.violation(&ctxr.findings, "C16", Violation { clause: "output-depends-on-input-order".into(), input: Input::Ledger(v.clone()), detail: format!("the text report differs when the same lines are given in the order '{label}': {first_diff}"), context: json!({"profile": name}) });
                 }
+            }
+            } else {
+                // a refused ledger: the error text is the output compared under every schedule below (which culprit it
+                // names may follow the order of the input lines — another input — but not a map's iteration order)
+                acc.bump("refused-ledgers-explored");
             }
             let mut distinct: std::collections::BTreeSet<String> = std::collections::BTreeSet::new();
             distinct.insert(base.out.clone());
@@ -303,7 +337,22 @@ pub fn c16(tier: Tier) -> i32 {
     // free-running processes (fresh random hash seeds): a sample, complementary to the exhaustive explorer above
     if mcx::proc::tool_exists() {
         let runs = if tier == Tier::Quick { 12 } else { 40 };
-        for (name, txs) in &ls {
+        // refused ledgers: exit code and error text of repeated fresh processes
+        for (name, txs) in ls.iter().filter(|(n, _)| n.starts_with("refused:")) {
+            let sc = Scratch::new();
+            sc.all_years_config();
+            sc.write("in.cgt", dsl_text(txs).as_bytes());
+            let outs: Vec<(Option<i32>, Vec<u8>, Vec<u8>)> = (0..runs * 2).into_par_iter().map(|_| run_tool(&["report", "in.cgt"], &sc, std::time::Duration::from_secs(30))).map(|o| (o.code, o.stdout, o.stderr)).collect();
+            acc.states += (runs * 2) as u64;
+            acc.validated += (runs * 2) as u64;
+            acc.bump("cli:repeated-process-runs-refused-ledger");
+            if outs.iter().any(|o| o != &outs[0]) || outs[0].2.is_empty() || !outs[0].1.is_empty() {
+                let distinct: std::collections::BTreeSet<String> = outs.iter().map(|o| String::from_utf8_lossy(&o.2).chars().take(120).collect()).collect();
+                acc.violation(&ctx.findings, "C16", Violation { clause: "output-differs-between-processes".into(), input: Input::Ledger(txs.clone()), detail: format!("`cgt-tool report in.cgt` on a refused ledger gave {} different error texts in {} runs (or no error text): {:?}", distinct.len(), runs * 2, distinct), context: json!({"profile": name}) });
+            }
+        }
+        let ls_ok: Vec<(String, Vec<Transaction>)> = ls.iter().filter(|(n, _)| !n.starts_with("refused:")).cloned().collect();
+        for (name, txs) in &ls_ok {
             let sc = Scratch::new();
             sc.all_years_config();
             sc.write("in.cgt", dsl_text(txs).as_bytes());
@@ -319,7 +368,7 @@ pub fn c16(tier: Tier) -> i32 {
         }
         // the same ledgers spread over four input files (round robin over the lines): the files are read in
         // command-line order, so every run must print the bytes printed for their concatenation in that order
-        for (name, txs) in &ls {
+        for (name, txs) in &ls_ok {
             let sc = Scratch::new();
             sc.all_years_config();
             let mut parts = vec![String::new(); 4];
